@@ -372,6 +372,11 @@ def mapLoop (c : ICtx) (b : Expr) : Env → Seq → Seq → IM (Seq × Env)
 def step (e : Expr) (c : ICtx) (D : Env) : IM (Seq × Env) :=
   match e with
   | .lit n => pure ([.int n], D)
+  | .dlit n => pure ([.dec n], D)
+  | .elit n => pure ([.dbl n], D)
+  | .inst t e => do
+    let v ← ev e c D
+    pure ([.bool (match v.1 with | [x] => t.has x | _ => false)], v.2)
   | .tt => pure ([.bool true], D)
   | .ff => pure ([.bool false], D)
   | .emp => pure ([], D)
